@@ -213,10 +213,10 @@ class SphinxRenderer(DocutilsRenderer):
         node = nodes.math_block(
             content, content, nowrap=False, number=None, label=label
         )
+        self.add_line_and_source_path(node, token)
         target = self.add_math_target(node)
         self.add_line_and_source_path(target, token)
         self.current_node.append(target)
-        self.add_line_and_source_path(node, token)
         self.current_node.append(node)
 
     def _random_label(self) -> str:
@@ -263,6 +263,16 @@ class SphinxRenderer(DocutilsRenderer):
 
         # create target node
         node_id = nodes.make_id("equation-{}".format(node["label"]))
-        target = nodes.target("", "", ids=[node_id])
+        ids = [node_id]
+        if node_id in self.document.ids:
+            # docutils only reports a clash of a preset id and keeps it on both
+            # elements, so warn here and let it allocate a fresh id instead
+            self.create_warning(
+                f"Duplicate equation id {node_id!r} for label {node['label']!r}",
+                MystWarnings.MD_DEF_DUPE,
+                line=node.line,
+            )
+            ids = []
+        target = nodes.target("", "", ids=ids)
         self.document.note_explicit_target(target)
         return target
